@@ -122,7 +122,7 @@ def make(targets, timeout=3000):
     """full .vo build of the given targets (never -vos); returns (ok, log)"""
     with Lock():
         write_coqproject()
-        cmd = ["make", "-j%d" % NPROC] + targets
+        cmd = ["make", "-j%d" % NPROC] + (targets + ["Base/Harness.vo"] if targets else targets)
         try:
             p = subprocess.run(cmd, cwd=COQDIR, capture_output=True, text=True, timeout=timeout)
             return p.returncode == 0, p.stdout + p.stderr, " ".join(cmd)
@@ -424,6 +424,11 @@ def run_check(plugin_mod, tier, seed, replay=None):
                     ncorpus += 1
         humans.extend(pl.generate(tier, seed))
     recs = run_impl(plugin_mod, humans, getattr(pl, "CASE_TIMEOUT", 20))
+    # a time-out under machine load is not a hang: re-run each timed-out case alone with a generous limit
+    for k, r in enumerate(recs):
+        if r.get("hang"):
+            _init_worker(plugin_mod)
+            recs[k] = _run_one((r["idx"], humans[r["idx"]], 12 * getattr(pl, "CASE_TIMEOUT", 20)))
     harness_errors = [r for r in recs if r.get("harness_error")]
     hangs = [r for r in recs if r.get("hang")]
     good = [r for r in recs if not r.get("hang") and not r.get("harness_error") and not r.get("skip")]
